@@ -29,7 +29,7 @@ PROP_ID = 'C05'
 TECHNIQUE = ('icontract class invariant + bit-for-bit before/after snapshots of every array argument (generic wrapper on all public '
              'analysis functions) + call-twice repeatability + ownership histories with sentinel writes')
 RULE = ('cases = (a) purity: every registry entry (public array-level function + argument recipe) x draws over float64/int64/'
-        'float32/list containers, lengths 2..300, each called twice; (b) ownership histories: caller container (f64/f32/i64 array, '
+        'float32/narrow and unsigned int/list containers and strided, negative-stride and read-only views, lengths 2..300, each called twice; the arrays returned by the previous call of every function are re-checked after the next call; (b) ownership histories: caller container (f64/f32/i64 array, '
         'list) -> constructor or reset_values -> 3..10 operations of the C04 mutator/setting alphabet with the caller container '
         'compared bit-for-bit after every operation, then sentinel writes; object->object variants; (c) thorough: the '
         'repository\'s own test-suite run with the invariant and the generic purity wrapper attached. distinct = digest of '
@@ -41,10 +41,10 @@ ASSUMPTIONS = ['real-valued records (complex input to the Stockwell functions is
                'attributes other than the array arguments (e.g. the swtf attribute cached on a signal by the Stockwell helpers) '
                'are not "input arrays"']
 MIN_EVALS = {'quick': {'invariant(values numeric ndarray, len==npts, time==dt*arange)': 20000, 'purity.args-unchanged': 15000,
-                       'purity.repeatable': 2000, 'ownership.caller-array-unchanged': 2500,
+                       'purity.repeatable': 2000, 'purity.earlier-result-unchanged-by-later-call': 10000, 'ownership.caller-array-unchanged': 2500,
                        'ownership.object-unaffected-by-caller-writes': 350, 'ownership.object-to-object': 150},
              'thorough': {'invariant(values numeric ndarray, len==npts, time==dt*arange)': 500000, 'purity.args-unchanged': 300000,
-                          'purity.repeatable': 50000, 'ownership.caller-array-unchanged': 60000,
+                          'purity.repeatable': 50000, 'purity.earlier-result-unchanged-by-later-call': 200000, 'ownership.caller-array-unchanged': 60000,
                           'ownership.object-unaffected-by-caller-writes': 8000, 'ownership.object-to-object': 3500,
                           'testsuite-under-monitors.completed': 1}}
 CTX = None
@@ -123,16 +123,65 @@ def _pre_generic(args, kwargs):
     return [snap(a) for a in args], {k: snap(v) for k, v in kwargs.items()}
 
 
+_LAST_RESULT = {}
+
+
+def _result_arrays(result, depth=0):
+    if isinstance(result, np.ndarray):
+        return [result]
+    if hasattr(result, 'values') and hasattr(result, 'npts') and isinstance(getattr(result, 'values', None), np.ndarray):
+        return [result.values]
+    if isinstance(result, (tuple, list)) and depth < 2:
+        out = []
+        for r in result:
+            out += _result_arrays(r, depth + 1)
+        return out
+    return []
+
+
+def judge_previous_result(qual, result):
+    """process-wide state: the arrays returned by the PREVIOUS call of the same function must still be what they were when
+    they were returned (a result that is a view of a module-level scratch buffer changes when the next input is processed)"""
+    ctx = CTX
+    prev = _LAST_RESULT.get(qual)
+    if prev is not None:
+        arrays, dig = prev
+        ctx.check(core.digest(*arrays) == dig, 'purity.earlier-result-unchanged-by-later-call',
+                  lambda: {'kind': 'previous-result', 'function': qual, 'recipe': CURRENT.get('recipe')},
+                  'arrays returned by an earlier call of %s changed after a later call' % qual)
+    arrays = _result_arrays(result)
+    if arrays and sum(a.nbytes for a in arrays) <= 4000000:
+        _LAST_RESULT[qual] = (arrays, core.digest(*arrays))
+    else:
+        _LAST_RESULT.pop(qual, None)
+
+
 def _make_post(qual):
     def post(args, kwargs, result, pre):
         judge_purity(qual, args, kwargs, pre)
+        # only for calls made by the driver itself (depth 0): the result of a nested call belongs to the eqsig function that
+        # made it, which may legitimately modify it in place (determine_peaks_only_delta_series does `cleaned_values *= ...`)
+        if CTX is not None and attach.STATE['depth'] == 0:
+            judge_previous_result(qual, result)
     return post
 
 
 def _make_onex(qual):
     def onex(args, kwargs, exc, pre):
         judge_purity(qual, args, kwargs, pre, raised=True)
+        note_readonly_write(qual, args, kwargs, exc)
     return onex
+
+
+def note_readonly_write(qual, args, kwargs, exc):
+    """a function that tries to write into a read-only input array raises ValueError('... read-only'): that is an attempted
+    mutation of the argument, not a legitimate rejection"""
+    if CTX is not None and isinstance(exc, ValueError) and 'read-only' in str(exc):
+        ro = [a for a in list(args) + list(kwargs.values()) if isinstance(a, np.ndarray) and not a.flags.writeable]
+        if ro:
+            CTX.violation('purity.args-unchanged', {'kind': 'purity', 'function': qual, 'recipe': CURRENT.get('recipe'),
+                                                    'args': describe_args(args, kwargs)},
+                          '%s attempted to write into a read-only input array: %s' % (qual, exc))
 
 
 def describe_args(args, kwargs):
@@ -351,7 +400,15 @@ def draw_record(rng):
     x, cls = gen.record(rng, n, allow_const=False)
     if cls == 'const' or not np.any(x != x[0]):
         x = x + rng.normal(size=n)
-    kind = ['f64', 'i64', 'list', 'f32'][int(rng.choice(4, p=[0.4, 0.25, 0.2, 0.15]))]
+    kind = ['f64', 'i64', 'list', 'f32', 'narrow', 'view'][int(rng.choice(6, p=[0.3, 0.2, 0.15, 0.1, 0.1, 0.15]))]
+    if kind == 'narrow':
+        c, kind = gen.narrow_int(rng, n, plateaus=bool(rng.integers(2)))
+        if not np.any(c != c[0]):
+            c[0] = c[0] // 2 + 1
+        return c, kind, 'narrow-int'
+    if kind == 'view':
+        c, kind = gen.view_form(rng, np.array(x, dtype=float))
+        return c, kind, cls
     if kind == 'i64':
         c = np.array(np.round(x / (np.max(np.abs(x)) + 1e-300) * 50), dtype=np.int64)
         if not np.any(c != c[0]):
@@ -396,6 +453,7 @@ def drive_purity(ctx, eqsig, draws):
             except Exception as e:
                 ctx.observe('raises(%s):%s:%s' % (kind, name, type(e).__name__))
                 judge_purity('recipe:' + name, args, kwargs, pre, raised=True)
+                note_readonly_write('recipe:' + name, args, kwargs, e)
                 continue
             judge_purity('recipe:' + name, args, kwargs, pre)
             try:
